@@ -28,8 +28,9 @@ EXPLANATION = (
     "in transformations of an existing Checked; (syntax) on the text catalogue of C01.parse (~12 700 texts; the parser "
     "evaluated from its THIR with the nom combinators modelled) the parser accepts exactly the texts that are in the "
     "documented syntax - flags anywhere except inside a tree wildcard or at the very end of a sub-expression, balanced "
-    "delimiters, well-formed bounds and classes, tree wildcards delimited by separators or terminations - and rejects the rest.")
-RULES = "C06.documented (TABLE on a catalogue: verdict vs. the documented rules by expansion), C06.table (TABLE), C06.ctxfree (LOOPDEP + EFFECT), C06.reach (TABLE), C06.bounds / C06.size (TABLE), C06.all (EFFECT+WHO), C06.syntax (TABLE on a text catalogue: parser accepts exactly the documented syntax)"
+    "delimiters, well-formed bounds and classes, tree wildcards delimited by separators or terminations - and rejects the rest.  "
+    "(text) ~6 400 texts taken through the parser - two groups around nothing / a literal / a separator / a wildcard with every combination of leading and trailing separators, and groups inside groups - are judged by the four rule functions and by the documented rules computed by expansion, both directions; two known families (a rooting branch / a wrap-around of a repetition body reached through a nested group) are reported as known findings with ceilings on their sizes.")
+RULES = "C06.documented (TABLE on a catalogue: verdict vs. the documented rules by expansion), C06.table (TABLE), C06.ctxfree (LOOPDEP + EFFECT), C06.reach (TABLE), C06.bounds / C06.size (TABLE), C06.all (EFFECT+WHO), C06.syntax (TABLE on a text catalogue: parser accepts exactly the documented syntax), C06.text (TABLE on a text catalogue: rule checker on parsed texts vs. the documented rules)"
 
 KINDS = ["sep", "tree-rooted", "tree", "zom", "lit", "branch"]
 BOUNDARY = {"sep", "tree-rooted", "tree"}
@@ -60,6 +61,7 @@ def run(ctx):
     exhaust.report_query(F, R, "C06.documented", ctx.tier, "rules", 15000, 15000)
     from . import parsecat
     parsecat.report(F, R, "C06.syntax", ctx.tier, ("accepts", "rejects"), 12000)
+    parsecat.report_rules(F, R, "C06.text")
 
 
 # ---------------------------------------------------------------------------------------------------
